@@ -28,8 +28,8 @@ REQUIRED_FEATURES = ["inputs:mixed-int-float-dtypes", "inputs:has-empty", "input
 
 
 def plan(tier, seed):
-    n = 14 if tier == "quick" else 44
-    per = 10 if tier == "quick" else 40
+    n = 14 if tier == "quick" else 48
+    per = 10 if tier == "quick" else 80
     s = [{"kind": "merge", "sub": i, "cases": per} for i in range(n)]
     s.append({"kind": "refuse", "cases": 24 if tier == "quick" else 120})
     s.append({"kind": "overflow", "cases": 24 if tier == "quick" else 120})
